@@ -7,6 +7,39 @@ TRUST = ('Trusted base: CPython ast parser; the library models of sa/models.py '
          '(struct, bytes, str, datetime raise/value models); the hand-transcribed '
          'specification tables in /verif/spec. ')
 CLAIMS = {
+
+ 'C01': dict(
+  text='Abstract interpretation of frame.marshal and frame.unmarshal specialised to each of the 64 method classes with symbolic argument values: the written layout and the read sequence (offsets as linear sums of consumed counts, bit positions, envelope, index) must agree, and each primitive encoder/decoder pair must agree in width, byte order, signedness-on-the-accepted-range and consumed count. Decides the structural part of the round trip for all argument values at once; it does not decide the numerical behaviour of struct/UTF-8 themselves.',
+  ref='DESIGN.md 5 C01', note=TRUST + 'Table-valued arguments defer to C03.',
+  technique='abstract interpretation (partial evaluation over a symbolic term domain) + struct-format algebra, sibling agreement of writer and reader'),
+ 'C02': dict(
+  text='Abstract interpretation of the content-header encoder and decoder with all 14 property values and the body size symbolic: conditional appends are joined (no enumeration of the 2^13 subsets) into a flag or-set plus optional fields; the decoder side yields flag-guarded reads at guarded-sum offsets; compared in slot order together with the presence predicate, the single flag word, the fixed part and fresh defaults.',
+  ref='DESIGN.md 5 C02', note=TRUST + 'Assume-guarantee across the wire: the decoder loop is interpreted under the continuation-bit-clear fact that C02.W proves of the encoder.',
+  technique='abstract interpretation with joins (or-sets, optional list elements), demanded-bits argument for the flag word'),
+ 'C04': dict(
+  text='The residual byte layout of frame.marshal for all 64 methods, content header, body, heartbeat and protocol header is compared with a reference layout generated from an independently transcribed specification by the AMQP bit-packing rule; each primitive encoder is compared with the reference encoding of its type or field tag.',
+  ref='DESIGN.md 5 C04', note=TRUST + 'longlong is signed in the library; agrees with the reference on all values both represent.',
+  technique='abstract interpretation of the encoders vs reference layout generated from transcribed spec tables'),
+ 'C06': dict(
+  text='Path rules over every successful return of frame.unmarshal on a symbolic buffer: consumed/channel/kind are the header fields, the end-octet guard is among the path facts, and every use of the buffer is a view bounded by the consumed count (so trailing bytes cannot influence the result).',
+  ref='DESIGN.md 5 C06', note=TRUST,
+  technique='abstract interpretation with path knowledge (guards, size-checked-read facts), linear reasoning, bounded-view (taint) rule'),
+ 'C07': dict(
+  text='For every successful return of frame.unmarshal the path facts must imply len(buffer) >= consumed; outcomes inside content decoders must lie behind the same guard; the framing stage may raise only UnmarshalingException. Together: a strict prefix never yields a frame.',
+  ref='DESIGN.md 5 C07', note=TRUST,
+  technique='guard-dominates-return via path knowledge + linear inequality reasoning; may-raise of the framing stage'),
+ 'C17': dict(
+  text='Exhaustive static comparison of CLASS_MAPPING, the exception class hierarchy and the protocol constants with a transcribed table (finite space, enumerated completely).',
+  ref='DESIGN.md 5 C17', note=TRUST,
+  technique='AST extraction + constant folding + class-hierarchy closure vs transcribed table'),
+ 'C19': dict(
+  text='For each of the 65 classes the six mapping accessors, resolved through the MRO, are specialised by the abstract interpreter with symbolic attribute values and compared with the ordered slot list; constructors must assign every slot on every normal path.',
+  ref='DESIGN.md 5 C19', note=TRUST + 'Slot tables are class-level literals nobody writes (C16).',
+  technique='abstract interpretation of accessors specialised to literal class tables'),
+ 'C20': dict(
+  text='frame_parts format/slice/order and its no-raise short-buffer behaviour, the encoder envelope (size = len(payload), length = size + 8), and per frame kind the interval of payload sizes the encoder can emit against the sizes the decoder guards accept.',
+  ref='DESIGN.md 5 C20', note=TRUST + 'One known finding (zero-length body refused by the decoder) is listed in known_findings.json.',
+  technique='abstract interpretation + struct-format algebra + interval comparison of guards'),
  'C14': dict(
   text='Exhaustive static comparison of every literal of the generated method catalogue '
        '(64 classes x attributes, INDEX_MAPPING, Basic.Properties, effective constructor '
